@@ -91,6 +91,34 @@ fn main() {
                     }
                 }
             }
+            // the two generators added in round 14
+            {
+                let strat400 = proptest::collection::vec(proptest::prelude::any::<u16>(), 400);
+                let (mut n_long, mut len_hist, mut n_sl, mut sl_hist) = (0u32, std::collections::BTreeMap::<usize, u32>::new(), 0u32, std::collections::BTreeMap::<usize, u32>::new());
+                for _ in 0..20000 {
+                    let tape = strat400.new_tree(&mut runner).unwrap().current();
+                    if let Some(p) = gen::plant_long_fen(&mut gen::Tape::new(&tape)) {
+                        n_long += 1;
+                        *len_hist.entry(p.fen().len()).or_insert(0) += 1;
+                    }
+                    if let Some(p) = gen::plant_many_sliders(&mut gen::Tape::new(&tape)) {
+                        n_sl += 1;
+                        // enemy sliders on the empty-board lines through the king of the side to move after a pass
+                        let owner = if p.men(chess_verif::refmodel::Col::W) >= p.men(chess_verif::refmodel::Col::B) { chess_verif::refmodel::Col::W } else { chess_verif::refmodel::Col::B };
+                        let k = p.king_sq(owner.other()).unwrap();
+                        let n = (0..64u8)
+                            .filter(|&s| matches!(p.at(s), Some((c, chess_verif::refmodel::Kind::Q | chess_verif::refmodel::Kind::R | chess_verif::refmodel::Kind::B)) if c == owner))
+                            .filter(|&s| {
+                                let (df, dr) = ((chess_verif::refmodel::file_of(s) - chess_verif::refmodel::file_of(k)).abs(), (chess_verif::refmodel::rank_of(s) - chess_verif::refmodel::rank_of(k)).abs());
+                                df == 0 || dr == 0 || df == dr
+                            })
+                            .count();
+                        *sl_hist.entry(n).or_insert(0) += 1;
+                    }
+                }
+                println!("plant_long_fen: accepted {} of 20000; FEN lengths {:?}", n_long, len_hist);
+                println!("plant_many_sliders: accepted {} of 20000; sliders on the lines through the enemy king {:?}", n_sl, sl_hist);
+            }
             println!("plant_boxed: accepted {} of 20000; {:?}", n_box, box_tags);
             println!("plant_ep_near_king: accepted {} of 20000; en-passant capture ends the game in {}", n_near, near_term);
             println!("plant_ep_discovery: accepted {} of 20000; en-passant capture legal in {}, discovers a check in {}, leaves a pinned piece in {}", n_disc, disc_ep_legal, disc_check, disc_pin);
